@@ -1100,7 +1100,12 @@ def tril(m, *args, **kwargs):
 @implements(np.einsum)
 def einsum(*operands, out=None, **kwargs):
     subscripts, *operands = operands
-    ret_units = _validate_units_consistency(operands)
+    # einsum multiplies its operands: the result carries the product of their
+    # units (a single operand keeps its unit)
+    ret_units = getattr(operands[0], "units", NULL_UNIT)
+    for operand in operands[1:]:
+        ret_units = ret_units * getattr(operand, "units", NULL_UNIT)
+    operands = [np.asarray(operand) for operand in operands]
 
     if out is not None:
         out_view = np.asarray(out)
